@@ -429,6 +429,10 @@ def run_one(ctl: explorer.Ctl, cfg: Dict[str, Any]) -> Dict[str, Any]:
         return run_servers(ctl, cfg)
     if cfg.get("part") == "dispatch-sequence":
         return run_dispatch_sequence(ctl, cfg)
+    if cfg.get("part") == "session-dispatch":
+        return run_session_dispatch(ctl, cfg)
+    if cfg.get("part") == "long-text":
+        return run_long_text(ctl, cfg)
     mi, ii = cfg["m"], cfg["i"]
     m = _methods()[mi]
     path, mkind = method_kind(m)
@@ -1197,6 +1201,282 @@ def dispatch_sequence_configs(tier: str) -> List[Dict[str, Any]]:
     return out
 
 
+# ---------------------------------------------------------------------------
+# messages dispatched WITH the session id of a session whose initialize carried clientInfo / capabilities of any JSON shape
+# ---------------------------------------------------------------------------
+class _Missing:
+    pass
+
+
+SHAPES: List[Any] = [{"name": "c", "version": "1"}, {}, {"name": None}, {"name": ["x"], "version": 1}, None, "a string",
+                     ["a", "list"], 17, 1.5, True, _Missing]
+SESSION_FOLLOWUPS = ["tools/call:returns", "tools/call:raises", "tools/call:unknown", "resources/read:raises",
+                     "custom/method:returns", "custom/method:raises", "custom/method:raises-empty-text", "unknown/method", "ping",
+                     "tools/list", "initialize-again"]
+
+
+def run_session_dispatch(ctl: explorer.Ctl, cfg: Dict[str, Any]) -> Dict[str, Any]:
+    from chuk_mcp.protocol.messages.json_rpc_message import parse_message
+    from chuk_mcp.server.server import MCPServer
+
+    ci, caps = SHAPES[cfg["ci"]], SHAPES[cfg["caps"]]
+    srv = MCPServer("vf-c08-session", "0.0.1")
+
+    def h(behaviour):
+        async def fn(**kw):
+            if behaviour == "raises":
+                raise KeyError("handler failed")
+            return "fine"
+        return fn
+
+    def m(behaviour):
+        async def fn(message, session_id):
+            if behaviour == "raises":
+                raise RuntimeError("custom handler failed")
+            if behaviour == "raises-empty-text":
+                raise AssertionError()
+            if getattr(message, "id", None) is None:
+                return None, None
+            return srv.protocol_handler.create_response(message.id, {"ok": True}), None
+        return fn
+
+    srv.register_tool("good", h("returns"), {"type": "object"}, "good")
+    srv.register_tool("bad", h("raises"), {"type": "object"}, "bad")
+    srv.register_resource("res://bad", h("raises"), name="bad")
+    for beh in ("returns", "raises", "raises-empty-text"):
+        srv.protocol_handler.register_method(f"custom/{beh}", m(beh))
+    viol: List[dict] = []
+    toks: List[str] = []
+    shape_name = lambda x: "missing" if x is _Missing else ("null" if x is None else type(x).__name__ + (  # noqa: E731
+        ":empty" if x == {} else ":name-not-a-string" if isinstance(x, dict) and not isinstance(x.get("name"), str) else ""))
+    ctx = {"clientInfo": shape_name(ci), "capabilities": "object" if isinstance(caps, dict) else "not-an-object"}
+
+    def bad(cls, msg, **extra):
+        viol.append({"sig": {"class": cls, **ctx, **extra},
+                     "msg": f"session created by initialize with clientInfo={None if ci is _Missing else ci!r} "
+                            f"({ctx['clientInfo']}) capabilities={'<missing>' if caps is _Missing else repr(caps)}: {msg}"})
+
+    async def main():
+        params: Dict[str, Any] = {"protocolVersion": "2025-06-18"}
+        if ci is not _Missing:
+            params["clientInfo"] = ci
+        if caps is not _Missing:
+            params["capabilities"] = caps
+        init = {"jsonrpc": "2.0", "id": "init", "method": "initialize", "params": params}
+        sid = None
+        try:
+            ret = await srv.protocol_handler.handle_message(parse_message(json.loads(json.dumps(init))))
+            if isinstance(ret, tuple) and len(ret) == 2 and ret[0] is not None:
+                d = _dump(ret[0])
+                if classify(d)[0] not in ("result", "error") or not strict_eq(d.get("id"), "init"):
+                    bad("invalid-response-envelope", f"initialize answered {d!r}", step="initialize")
+                toks.append("init:" + _token(d))
+                sid = ret[1] if isinstance(ret[1], str) else None
+            else:
+                bad("request-got-no-response", f"initialize returned {ret!r}", step="initialize")
+        except Exception as e:  # noqa: BLE001
+            bad("request-raised", f"initialize raised {type(e).__name__}: {str(e)[:100]}", step="initialize", detail=type(e).__name__)
+        for fu in SESSION_FOLLOWUPS:
+            meth, _, arg = fu.partition(":")
+            for rid in (9, None):
+                wire: Dict[str, Any] = {"jsonrpc": "2.0", "method": meth}
+                want = "R"
+                if meth == "tools/call":
+                    wire["params"] = {"name": {"returns": "good", "raises": "bad", "unknown": "nope"}[arg], "arguments": {}}
+                    want = {"returns": "R", "raises": "E-32603", "unknown": "E-32602"}[arg]
+                elif meth == "resources/read":
+                    wire["params"] = {"uri": "res://bad"}
+                    want = "E-32603"
+                elif meth == "custom/method":
+                    wire["method"] = f"custom/{arg}"
+                    want = "R" if arg == "returns" else "E-32603"
+                elif meth == "unknown/method":
+                    want = "E-32601"
+                elif meth == "initialize-again":
+                    wire["method"] = "initialize"
+                    wire["params"] = {"protocolVersion": "2025-06-18", "clientInfo": {"name": "again"}, "capabilities": {}}
+                if rid is not None:
+                    wire["id"] = rid
+                step = fu + ("" if rid is not None else " (notification)")
+                try:
+                    ret = await srv.protocol_handler.handle_message(parse_message(json.loads(json.dumps(wire))), sid)
+                except Exception as e:  # noqa: BLE001
+                    toks.append("raised")
+                    bad("notification-raised" if rid is None else "request-raised",
+                        f"with the session id, {wire} made handle_message raise {type(e).__name__}: {str(e)[:100]}",
+                        step=fu, detail=type(e).__name__)
+                    continue
+                if not (isinstance(ret, tuple) and len(ret) == 2):
+                    bad("bad-return-shape", f"{wire}: returned {ret!r}", step=fu)
+                    continue
+                if rid is None:
+                    if ret[0] is not None:
+                        bad("notification-got-response", f"{wire}: answered {_dump(ret[0])!r}", step=fu)
+                    continue
+                if ret[0] is None:
+                    bad("request-got-no-response", f"{wire}: no response", step=fu)
+                    continue
+                d = _dump(ret[0])
+                if classify(d)[0] not in ("result", "error") or not strict_eq(d.get("id"), rid):
+                    bad("invalid-response-envelope", f"{wire}: {d!r}", step=fu)
+                    continue
+                tok = _token(d)
+                toks.append(tok)
+                if tok != want:
+                    bad("wrong-outcome", f"{wire}: expected {want}, got {tok}: {d!r}", step=fu, got=tok)
+
+    loop = new_loop(horizon=5)
+    status, val = loop.run_main(main())
+    errors = loop.collect_errors()
+    loop.abandon()
+    if status != "ok":
+        raise core.HarnessError(f"session dispatch {cfg} did not complete: {status} {val!r}")
+    if errors:
+        raise core.HarnessError(f"session dispatch {cfg}: event loop reported {errors[:2]}")
+    firsts: Dict[str, dict] = {}
+    for v in viol:
+        firsts.setdefault(json.dumps(v["sig"], sort_keys=True), v)
+    tally: Dict[str, int] = {}
+    for t in toks:
+        tally[t] = tally.get(t, 0) + 1
+    return {"outcome": "+".join(f"{k}x{v}" for k, v in sorted(tally.items())), "violations": list(firsts.values()),
+            "counters": {"session-dispatch-executions": 1, "session-dispatches-judged": 2 * len(SESSION_FOLLOWUPS) + 1}}
+
+
+def session_dispatch_configs() -> List[Dict[str, Any]]:
+    return [{"part": "session-dispatch", "ci": a, "caps": b} for a in range(len(SHAPES)) for b in range(len(SHAPES))]
+
+
+# ---------------------------------------------------------------------------
+# long non-ASCII names / exception texts: whatever length the error text reaches, dispatch answers as usual
+# ---------------------------------------------------------------------------
+LONG_PATHS = ["unknown-method", "unknown-tool", "unknown-resource", "tool-raises", "resource-raises", "custom-raises"]
+LONG_CHARS = {"2-byte": "\u00e9", "3-byte": "\u20ac", "4-byte": "\U0001F600"}
+LONG_TARGETS = [2 ** n for n in range(6, 17)]         # 64 .. 65536 bytes
+LONG_DELTAS = list(range(-28, 5))                      # the error text = a prefix of <= 24 bytes + the name / text
+
+
+def long_text(char: str, target: int, delta: int, lead: int) -> str:
+    """`lead` ASCII bytes, then the character repeated up to about target+delta bytes in all."""
+    w = len(char.encode("utf-8"))
+    n = max(1, (target + delta - lead) // w)
+    return "a" * lead + char * n
+
+
+def run_long_text(ctl: explorer.Ctl, cfg: Dict[str, Any]) -> Dict[str, Any]:
+    from chuk_mcp.protocol.messages.json_rpc_message import parse_message
+    from chuk_mcp.server.server import MCPServer
+
+    path, cname, target = LONG_PATHS[cfg["path"]], cfg["char"], cfg["T"]
+    char = LONG_CHARS[cname]
+    counters: Dict[str, int] = {}
+    first: Dict[str, Dict[str, Any]] = {}
+
+    def count(k, n=1):
+        counters[k] = counters.get(k, 0) + n
+
+    want = {"unknown-method": "E-32601", "unknown-tool": "E-32602", "unknown-resource": "E-32602"}.get(path, "E-32603")
+    combos = [(d, lead) for d in LONG_DELTAS for lead in range(4)]
+    if cfg.get("one") is not None:
+        combos = [tuple(cfg["one"][:2])]
+
+    async def main():
+        for delta, lead in combos:
+            text = long_text(char, target, delta, lead)
+            for note in ((False, True) if cfg.get("one") is None else (bool(cfg["one"][2]),)):
+                srv = MCPServer("vf-c08-long", "0.0.1")
+
+                async def tool(**kw):
+                    raise RuntimeError(text)
+
+                async def custom(message, session_id):
+                    raise ValueError(text)
+
+                srv.register_tool("t", tool, {"type": "object"}, "t")
+                srv.register_resource("res://r", tool, name="r")
+                srv.protocol_handler.register_method("custom/raises", custom)
+                wire: Dict[str, Any] = {"jsonrpc": "2.0"}
+                if path == "unknown-method":
+                    wire["method"] = "x/" + text
+                elif path == "unknown-tool":
+                    wire.update(method="tools/call", params={"name": text, "arguments": {}})
+                elif path == "unknown-resource":
+                    wire.update(method="resources/read", params={"uri": "res://" + text})
+                elif path == "tool-raises":
+                    wire.update(method="tools/call", params={"name": "t", "arguments": {}})
+                elif path == "resource-raises":
+                    wire.update(method="resources/read", params={"uri": "res://r"})
+                else:
+                    wire["method"] = "custom/raises"
+                if not note:
+                    wire["id"] = 3
+                count("cases")
+
+                def bad(cls, msg, **extra):
+                    sig = {"class": cls, "path": path, "characters": cname, "message": "notification" if note else "request", **extra}
+                    key = json.dumps(sig, sort_keys=True)
+                    e = first.get(key)
+                    if e is None:
+                        first[key] = {"sig": sig, "n": 1, "one": [delta, lead, int(note)],
+                                      "msg": f"{path} with a text of {len(text.encode('utf-8'))} bytes ({lead} ASCII bytes, then "
+                                             f"{cname} characters; target {target}{delta:+d}): {msg}"}
+                    else:
+                        e["n"] += 1
+                    count("violating-judgements")
+
+                try:
+                    ret = await srv.protocol_handler.handle_message(parse_message(wire))
+                except Exception as e:  # noqa: BLE001
+                    bad("notification-raised" if note else "request-raised",
+                        f"handle_message raised {type(e).__name__}: {str(e)[:100]}", detail=type(e).__name__)
+                    continue
+                if not (isinstance(ret, tuple) and len(ret) == 2):
+                    bad("bad-return-shape", f"returned {type(ret).__name__}")
+                    continue
+                if note:
+                    if ret[0] is not None:
+                        bad("notification-got-response", "a notification was answered")
+                    continue
+                if ret[0] is None:
+                    bad("request-got-no-response", "no response")
+                    continue
+                d = _dump(ret[0])
+                try:
+                    json.dumps(d).encode("utf-8")
+                    ok_env = classify(d)[0] in ("result", "error") and strict_eq(d.get("id"), 3)
+                except Exception:  # noqa: BLE001
+                    ok_env = False
+                if not ok_env:
+                    bad("invalid-response-envelope", f"{str(d)[:160]}")
+                    continue
+                tok = _token(d)
+                count("request:" + tok)
+                if tok != want:
+                    bad("wrong-outcome", f"expected {want}, got {tok}: {str(d.get('error'))[:160]}", got=tok)
+
+    loop = new_loop(horizon=5)
+    status, val = loop.run_main(main())
+    errors = loop.collect_errors()
+    loop.abandon()
+    if status != "ok":
+        raise core.HarnessError(f"long text {cfg} did not complete: {status} {val!r}")
+    if errors:
+        raise core.HarnessError(f"long text {cfg}: event loop reported {errors[:2]}")
+    if cfg.get("one") is not None:
+        return {"outcome": "single", "violations": [{"sig": e["sig"], "msg": e["msg"]} for e in first.values()],
+                "counters": {"single-cases": 1}}
+    for key, e in first.items():
+        count("sig:" + key, e["n"])
+        rank = ((cfg["path"] * 4 + list(LONG_CHARS).index(cname)) * 10**6 + target) * 1000 + (e["one"][0] + 50) * 10 + e["one"][1]
+        count(twopass.fail_key(e["sig"], rank, dict(cfg, one=e["one"])))
+    return {"outcome": f"{path}:{want}", "violations": [], "counters": counters}
+
+
+def long_text_configs() -> List[Dict[str, Any]]:
+    return [{"part": "long-text", "path": p, "char": c, "T": t} for p in range(len(LONG_PATHS)) for c in LONG_CHARS
+            for t in LONG_TARGETS]
+
+
 def overlap_configs(tier: str) -> List[Dict[str, Any]]:
     out = []
     # two calls: every ordered pair of messages with distinct ids (two notifications allowed) x targets x behaviours
@@ -1275,6 +1555,18 @@ def run(tier: str, only=None) -> core.Result:
     dq = res.parts["dispatch-sequences-held-responses"]
     res.coverage["dispatch_sequences"] = dq["executions"]
     res.coverage["dispatch_sequence_dispatches_judged"] = dq["counters"].get("dispatches-judged", 0)
+    sdc = session_dispatch_configs()
+    outsd = explorer.explore(RUN, sdc)
+    sched.absorb(res, "dispatch-with-a-session-of-any-clientInfo-shape", RUN, outsd, sdc, min_outcomes=1)
+    sched.debug_pass(res, "dispatch-with-a-session-of-any-clientInfo-shape", RUN, sdc, every=3)
+    ltc = long_text_configs()
+    outlt = explorer.explore(RUN, ltc)
+    sched.absorb(res, "long-non-ascii-error-texts", RUN, outlt, ltc)
+    twopass.second_pass(res, RUN, ["long-non-ascii-error-texts"], per_sig=2, name="failing-long-texts-one-by-one")
+    lt = res.parts["long-non-ascii-error-texts"]["counters"]
+    sd = res.parts["dispatch-with-a-session-of-any-clientInfo-shape"]["counters"]
+    res.coverage["session_dispatch_judged"] = sd.get("session-dispatches-judged", 0)
+    res.coverage["long_text_cases"] = lt.get("cases", 0)
     sv = res.parts["several-servers-alive"]
     res.coverage["server_sets"] = sv["executions"]
     res.coverage["server_set_probes_judged"] = sv["counters"].get("probes-judged", 0)
@@ -1286,7 +1578,8 @@ def run(tier: str, only=None) -> core.Result:
     res.coverage["overlap_executions_with_a_dispatch_during_a_suspension"] = oc["counters"].get(
         "executions-with-a-dispatch-during-a-suspension", 0)
     res.coverage["evaluations"] = (c.get("cases", 0) + dc.get("cases", 0) + oc["executions"]
-                                   + sv["counters"].get("probes-judged", 0) + dq["counters"].get("dispatches-judged", 0))
+                                   + sv["counters"].get("probes-judged", 0) + dq["counters"].get("dispatches-judged", 0)
+                                   + sd.get("session-dispatches-judged", 0) + lt.get("cases", 0))
     res.coverage["distinct_nontrivial"] = (c.get("judged-distinct", 0) + oc["distinct_observations"] + sv["distinct_observations"]
                                            + dq["distinct_observations"])
     res.coverage["judged"] = c.get("judged", 0)
@@ -1332,7 +1625,12 @@ def run(tier: str, only=None) -> core.Result:
         "unknown tool, register a tool, register a resource} on ONE server with ids 0, 'b', 7, '' by position, run one after the "
         "other and with asyncio.gather: each response is judged on a snapshot taken at once (own id, outcome, listings show what is "
         "registered at that moment), every response object is kept and dumped again after the whole sequence (must be unchanged) "
-        "and no object is returned twice.  Debug-logging passes: a slice of the "
+        "and no object is returned twice.  Session-carrying dispatch: initialize with clientInfo x capabilities each over 11 JSON shapes "
+        "(objects, {}, name null / list, null, string, list, int, float, bool, missing), then 11 follow-ups (tool returns / raises / "
+        "unknown, resource raises, custom returns / raises / raises with empty text, unknown method, ping, tools/list, a second "
+        "initialize) as request and notification dispatched WITH the session id.  Long texts: unknown method / tool / resource names "
+        "and exception texts of tool, resource and custom handlers whose error text reaches 2^6..2^16 bytes -28..+4, built from 2-, "
+        "3- and 4-byte characters after 0..3 ASCII bytes (every alignment), as request and notification.  Debug-logging passes: a slice of the "
         "block grid (every method x id absent/int/str x 8 params shapes x up to 4 behaviours), every 7th overlap configuration "
         "and every 5th server set re-run with the root logger at DEBUG (log-statement arguments are evaluated)"
     )
